@@ -210,3 +210,33 @@ var _ = digest.SpecHashSlot // spec functions used by the contracts below
 //@   modifies nothing
 //@   ensures carries_the_checkpoint: cpi != nil ==> result1 == nil && result0 != nil && fresh(result0) && result0.Offset == cpi.Offset && result0.RunID == cpi.RunId && result0.UnitSeq == 0
 //@   ensures nil_is_an_error: cpi == nil ==> result1 != nil && result0 == nil
+
+// ---- the sync-mode resume record is the one that reaches furthest into the source stream (C14) --
+//   latestMax  the largest end offset among the matching latest records parsed so far (below every int64: none)
+//@ func normalizeBisyncRecoverySlots(typ, slots) (r)
+//@   trusted frame (pure)
+//@   modifies nothing
+//@ func BisyncLatestCheckpointKey(name, tag) (k)
+//@   trusted frame (pure)
+//@   modifies nothing
+//@ func loadBisyncRecordMaps(cli, keys) (maps, err)
+//@   trusted abstract bookkeeping store
+//@ func ParseBisyncCommitRecordMap(key, fields) (rec, err)
+//@   trusted abstract decoding of one stored record
+//@   modifies nothing
+//@   ensures parsed: err == nil ==> rec != nil && fresh(rec)
+//@ func client.Redis.RedisType(self) (t)
+//@   trusted abstract target connection
+//@   modifies nothing
+
+//@ func LoadBisyncLatestStartRecord
+//@   arith int
+//@   properties C14
+//@   ghost var latestMax mathint = 0 - 9223372036854775809
+//@   requires nonnil: cli != nil
+//@   modifies heap, latestMax
+//@   set latestMax = 0 - 9223372036854775809 at call loadBisyncRecordMaps
+//@   set latestMax = ite(result && record.EndOffset > latestMax, record.EndOffset, latestMax) after call MatchBisyncRunID
+//@   ensures the_resume_record_reaches_furthest_into_the_stream: result2 == nil && result0 != nil ==> result0.EndOffset >= latestMax
+//@   loop 2:
+//@     invariant best_so_far: (best != nil ==> best.EndOffset >= latestMax) && (best == nil ==> latestMax == 0 - 9223372036854775809) && recordCount >= 0
